@@ -259,7 +259,7 @@ Lemma step_proc : forall now s rf dt pn fl,
   let s' := on_processed_packet s pn (N.testbit fl 0) now' (N.land (N.shiftr fl 1) 3) (N.testbit fl 3) in
   let rf' := ref_step (ranges_limit (cfg s)) now' rf (OProc dt pn fl) None in
   Inv now' s' rf' /\ cfg s' = cfg s /\
-  check (max_ack_delay (cfg s)) rf rf' (OProc dt pn fl) None (optz (timer s')) (bz (is_active (ts s'))) = true.
+  check (max_ack_delay (cfg s)) now' rf rf' (OProc dt pn fl) None (optz (timer s')) (bz (is_active (ts s'))) = true.
 Proof.
   intros now s rf dt pn fl I Hpn now' s' rf'.
   destruct I as [Ic Il Iw [Ilen1 Ilen2] Isub Ib Imax It Idl Ind Iarr Icov Iin Iaet Ile Ilast].
@@ -377,7 +377,7 @@ Lemma step_tx : forall now s rf dt ctl pkt c m af pf s' f,
   transmit s now' c m pkt (N.testbit ctl 4) af pf = (s', f) ->
   let rf' := ref_step (ranges_limit (cfg s)) now' rf (OTx dt ctl pkt) (fo_of f) in
   Inv now' s' rf' /\ cfg s' = cfg s /\
-  check (max_ack_delay (cfg s)) rf rf' (OTx dt ctl pkt) (fo_of f) (optz (timer s')) (bz (is_active (ts s'))) = true.
+  check (max_ack_delay (cfg s)) now' rf rf' (OTx dt ctl pkt) (fo_of f) (optz (timer s')) (bz (is_active (ts s'))) = true.
 Proof.
   intros now s rf dt ctl pkt c m af pf s' f I now' Htx rf'.
   destruct I as [Ic Il Iw [Ilen1 Ilen2] Isub Ib Imax It Idl Ind Iarr Icov Iin Iaet Ile Ilast].
@@ -475,7 +475,7 @@ Lemma step_ack : forall now s rf a b,
   let s' := on_packet_ack s (N.min a b) (N.max a b) in
   let rf' := ref_step (ranges_limit (cfg s)) now rf (OAck a b) None in
   Inv now s' rf' /\ cfg s' = cfg s /\
-  check (max_ack_delay (cfg s)) rf rf' (OAck a b) None (optz (timer s')) (bz (is_active (ts s'))) = true.
+  check (max_ack_delay (cfg s)) now rf rf' (OAck a b) None (optz (timer s')) (bz (is_active (ts s'))) = true.
 Proof.
   intros now s rf a b I s' rf'.
   destruct I as [Ic Il Iw [Ilen1 Ilen2] Isub Ib Imax It Idl Ind Iarr Icov Iin Iaet Ile Ilast].
@@ -563,7 +563,7 @@ Lemma step_timeout : forall now s rf dt,
   let now' := now + dt in
   let s' := on_timeout s now' in
   Inv now' s' rf /\ cfg s' = cfg s /\
-  check (max_ack_delay (cfg s)) rf rf (OTimeout dt) None (optz (timer s')) (bz (is_active (ts s'))) = true.
+  check (max_ack_delay (cfg s)) now' rf rf (OTimeout dt) None (optz (timer s')) (bz (is_active (ts s'))) = true.
 Proof.
   intros now s rf dt I now' s'.
   destruct I as [Ic Il Iw [Ilen1 Ilen2] Isub Ib Imax It Idl Ind Iarr Icov Iin Iaet Ile Ilast].
@@ -583,7 +583,16 @@ Proof.
       intros Hel. specialize (He Hel). destruct (j_lost h); [apply activate_idem; assumption|assumption].
     + intros d Hd. specialize (It _ Hd). unfold now'. lia.
     + intros p t Hp. destruct (Iarr _ _ Hp). split; [unfold now'; lia|assumption].
-  - unfold check. cbn [andb]. apply deadline_from. assumption.
+  - unfold check. apply andb_true_iff. split; [|apply deadline_from; assumption].
+    destruct (min_arrival (pend rf)) as [t0|] eqn:Em; [|reflexivity].
+    apply min_arrival_in in Em as [p Hp].
+    unfold s', on_timeout. destruct (expired (timer s) (tstamp now')) eqn:Ee; cbn [ts timer].
+    + replace (is_active (activate (ts s))) with true; [reflexivity|]. symmetry.
+      destruct (Idl _ _ Hp) as [H|_]; [apply activate_idem; assumption|].
+      apply activate_active. apply Ind. intros E. rewrite E in Hp. destruct Hp.
+    + destruct (Idl _ _ Hp) as [H|[d [Hd _]]]; [rewrite H; reflexivity|].
+      rewrite Hd in *. cbn [expired optz] in *. apply N.ltb_ge in Ee. rewrite tstamp_id in Ee by (unfold now'; lia).
+      apply orb_true_iff. right. apply Z.ltb_lt. unfold Nz. lia.
 Qed.
 
 (* ---- packets lo..=hi were declared lost ---- *)
@@ -617,7 +626,7 @@ Lemma step_loss : forall now s rf a b,
   let s' := on_packet_loss s (N.min a b) (N.max a b) in
   let rf' := ref_step (ranges_limit (cfg s)) now rf (OLoss a b) None in
   Inv now s' rf' /\ cfg s' = cfg s /\
-  check (max_ack_delay (cfg s)) rf rf' (OLoss a b) None (optz (timer s')) (bz (is_active (ts s'))) = true.
+  check (max_ack_delay (cfg s)) now rf rf' (OLoss a b) None (optz (timer s')) (bz (is_active (ts s'))) = true.
 Proof.
   intros now s rf a b I s' rf'.
   destruct I as [Ic Il Iw [Ilen1 Ilen2] Isub Ib Imax It Idl Ind Iarr Icov Iin Iaet Ile Ilast].
@@ -894,8 +903,6 @@ Qed.
 
 (* ---------------- capacity eviction drops only the lowest numbers ---------------- *)
 
-Definition Asc (l : ranges) : Prop := StronglySorted (fun r1 r2 => snd r1 < fst r2) l.
-
 Lemma in_ranges_ex : forall l y, in_ranges y l = true -> exists r, In r l /\ fst r <= y <= snd r.
 Proof.
   intros l y H. unfold in_ranges in H. apply existsb_exists in H as [r [Hr Hy]].
@@ -922,4 +929,48 @@ Proof.
       apply in_ranges_ex in Hy as [r [Hr Hyr]]. inversion Has as [|? ? _ Hall]; subst.
       rewrite Forall_forall in Hall. specialize (Hall r Hr). cbn [snd] in Hall. lia.
   - rewrite Hx in Hnx. discriminate.
+Qed.
+
+(* every reachable ack_ranges value is well formed, ascending with gaps between neighbours, and within
+   the limit: the hypotheses of ranges_drop_only_lowest hold in every reachable state *)
+Lemma step_asc : forall now s rf o now' s' f, Inv now s rf -> op_wf o ->
+  step_core now s o = (now', s', f) -> Asc (rng s) -> Asc (rng s').
+Proof.
+  intros now s rf o now' s' f I Ho Hs Ha.
+  destruct o as [dt pn fl|dt ctl pkt|a b|a b|dt]; cbn [step_core] in Hs.
+  - remember (N.land (N.shiftr fl 1) 3) as ecnc eqn:Eecn. clear Eecn. injection Hs as _ <- _.
+    destruct (opp_ok s pn (N.testbit fl 0) (now + dt) ecnc (N.testbit fl 3) (i_lim _ _ _ I)
+               ltac:(pose proof (i_clock _ _ _ I); lia)) as [_ Orng _ _ _ _ _ _ _].
+    rewrite Orng. apply ipn_asc; [apply (i_wf _ _ _ I)|assumption|apply (i_len _ _ _ I)|apply (i_lim _ _ _ I)].
+  - destruct (transmit s (now + dt) (N.land ctl 3) (N.land (N.shiftr ctl 2) 3) pkt (N.testbit ctl 4)
+                (negb (N.testbit ctl 5)) (negb (N.testbit ctl 6))) as [s1 [fr|]] eqn:Etx; inversion Hs; subst.
+    + apply transmit_some in Etx. rewrite (t_rng _ _ _ _ _ Etx). assumption.
+    + apply transmit_none in Etx. subst. assumption.
+  - inversion Hs; subst. unfold on_packet_ack.
+    destruct (aet_on_update (stable s) (latest s) (N.min a b) (N.max a b)) as [[st la] [x|]]; cbn [rng];
+      [apply remove_upto_asc|]; assumption.
+  - inversion Hs; subst. unfold on_packet_loss.
+    destruct (aet_on_update (stable s) (latest s) (N.min a b) (N.max a b)) as [[st la] r]; cbn [rng]. assumption.
+  - inversion Hs; subst. unfold on_timeout. destruct (expired (timer s) (tstamp (now + dt))); cbn [rng]; assumption.
+Qed.
+
+Lemma exec_asc : forall ops now s rf, Inv now s rf -> Forall op_wf ops -> Asc (rng s) ->
+  let '(now', s', rf') := exec now s rf ops in Asc (rng s').
+Proof.
+  induction ops as [|o t IH]; intros now s rf I Hwf Ha; [assumption|].
+  inversion Hwf as [|? ? Ho Ht]; subst. cbn [exec].
+  destruct (step_core now s o) as [[now1 s1] f] eqn:Es.
+  destruct (step_inv _ _ _ _ _ _ _ I Ho Es) as [I1 Hc].
+  apply (IH now1 s1 _ I1 Ht). exact (step_asc _ _ _ _ _ _ _ I Ho Es Ha).
+Qed.
+
+Theorem ranges_ascending : forall c ops, 1 <= ranges_limit c -> Forall op_wf ops ->
+  let '(now', s', rf') := exec 1 (init c) ref0 ops in
+  WF (rng s') /\ Asc (rng s') /\ len (rng s') <= ranges_limit c.
+Proof.
+  intros c ops Hl Hwf.
+  pose proof (exec_inv ops 1 (init c) ref0 (init_inv c Hl) Hwf) as H.
+  pose proof (exec_asc ops 1 (init c) ref0 (init_inv c Hl) Hwf ltac:(constructor)) as H2.
+  destruct (exec 1 (init c) ref0 ops) as [[now' s'] rf']. destruct H as [I Hc].
+  split; [apply (i_wf _ _ _ I)|]. split; [assumption|]. cbn [init cfg] in Hc. rewrite <- Hc. apply (i_len _ _ _ I).
 Qed.
